@@ -133,3 +133,16 @@ class C07(Prop):
 
 
 REGISTRY = {p.pid: p for p in [C04(), C07(), C14(), C20()]}
+
+
+def _load_plugins():
+    """vlib/props_<m>.py modules define PROPS = [Prop instances]; later definitions override earlier ones"""
+    import glob, importlib, os
+    here = os.path.dirname(os.path.abspath(__file__))
+    for fn in sorted(glob.glob(os.path.join(here, "props_*.py"))):
+        mod = importlib.import_module("vlib." + os.path.basename(fn)[:-3])
+        for p in getattr(mod, "PROPS", []):
+            REGISTRY[p.pid] = p
+
+
+_load_plugins()
